@@ -130,6 +130,24 @@ func (tc *TypeChecker) CheckType(value interface{}, expectedType Type) error {
 		return nil
 	}
 
+	// Wrapper types: a value conforms to `T?` when it conforms to T (null was
+	// accepted above), and to `A | B` when it conforms to one of the members.
+	// Delegating the whole check - not only the shallow compatibility test -
+	// keeps what the wrapped type demands: `[int]?` validates its elements,
+	// `User?` its fields, and `int?` accepts the JSON number 1 like `int` does.
+	switch et := expectedType.(type) {
+	case OptionalType:
+		return tc.CheckType(value, et.InnerType)
+	case UnionType:
+		for _, memberType := range et.Types {
+			if tc.CheckType(value, memberType) == nil {
+				return nil
+			}
+		}
+		return fmt.Errorf("type mismatch: expected %s, got %s",
+			tc.TypeToString(expectedType), tc.TypeToString(GetRuntimeType(value)))
+	}
+
 	// JSON has a single number type, so every number in a request body decodes
 	// to float64. Without this, an `int` field rejects the perfectly ordinary
 	// body {"id": 1} with "expected int, got float". A value with a fractional
@@ -151,14 +169,21 @@ func (tc *TypeChecker) CheckType(value interface{}, expectedType Type) error {
 			tc.TypeToString(expectedType), tc.TypeToString(actualType))
 	}
 
-	// For array types, validate element types if specified
-	if arrayType, ok := expectedType.(ArrayType); ok {
-		if arrayType.ElementType != nil {
-			if arr, ok := value.([]interface{}); ok {
-				for i, elem := range arr {
-					if err := tc.CheckType(elem, arrayType.ElementType); err != nil {
-						return fmt.Errorf("array element %d: %v", i, err)
-					}
+	// For array types ([T], List<T>, List[T]), validate element types if specified
+	var elementType Type
+	switch et := expectedType.(type) {
+	case ArrayType:
+		elementType = et.ElementType
+	case GenericType:
+		if named, ok := et.BaseType.(NamedType); ok && named.Name == "List" && len(et.TypeArgs) == 1 {
+			elementType = et.TypeArgs[0]
+		}
+	}
+	if elementType != nil {
+		if arr, ok := value.([]interface{}); ok {
+			for i, elem := range arr {
+				if err := tc.CheckType(elem, elementType); err != nil {
+					return fmt.Errorf("array element %d: %v", i, err)
 				}
 			}
 		}
